@@ -9,8 +9,8 @@ same schedules hang the real `Pool` under plain asyncio: notes/C16-repro-1.py, -
 corpus/C16/hang-1-*, hang-2-*; a third class, Mode D, depends on float-calibrated quotas and
 is only demonstrated on the real pool: notes/C16-repro-3.py).
 
-Scope: histories without `prune_inactive_connections` / `prune_all_connections` events
-(`Prims.NoPruneEv`); the per-step oracle of the harness checks the same clauses on the real
+Scope: histories without `prune_inactive_connections` events (`NoPruneInactive`;
+`prune_all_connections` is covered); the per-step oracle of the harness checks the same clauses on the real
 pool for all histories.
 
 Reading guide (`Model/PoolSpec.lean`): `Inv₂ s` = for every block, if somebody sleeps in its
@@ -20,26 +20,27 @@ lists exactly its sleeping waiters, every sleeping waiter is in the queue of its
 either waiting or holding.
 -/
 import EdbVerif.Lemmas.PoolC16
+import EdbVerif.Lemmas.PoolPrune
 
 namespace EdbVerif.C16
 open EdbVerif.Pool
 
-/-- No lost wake-up, for all histories (without pruning events), all capacities, any number
-    of databases, every environment: an idle connection never sits in a block while all of
-    the block's waiters sleep. -/
-theorem no_lost_wakeup (max : Nat) (evs : List (Env × Ev)) (hev : ∀ x ∈ evs, Prims.NoPruneEv x.2) :
+/-- No lost wake-up, for all histories without `prune_inactive_connections` events
+    (`prune_all_connections` is allowed), all capacities, any number of databases, every
+    environment: an idle connection never sits in a block while all of the block's waiters sleep. -/
+theorem no_lost_wakeup (max : Nat) (evs : List (Env × Ev)) (hev : ∀ x ∈ evs, NoPruneInactive x.2) :
     Inv₂ (run (init max) evs) :=
-  (runQ max evs hev).2.inv2
+  (runQ' max evs hev).2.inv2
 
 /-- The whole waiter bookkeeping is invariant (and so is C15's `InvNum`, jointly). -/
-theorem waiters_consistent (max : Nat) (evs : List (Env × Ev)) (hev : ∀ x ∈ evs, Prims.NoPruneEv x.2) :
+theorem waiters_consistent (max : Nat) (evs : List (Env × Ev)) (hev : ∀ x ∈ evs, NoPruneInactive x.2) :
     InvNum (run (init max) evs) ∧ InvQ (run (init max) evs) :=
-  runQ max evs hev
+  runQ' max evs hev
 
 /-- … as a one-step statement: preserved by every transition for every environment choice. -/
-theorem waiters_step (s : State) (env : Env) (e : Ev) (h : InvNum s ∧ InvQ s) (he : Prims.NoPruneEv e) :
+theorem waiters_step (s : State) (env : Env) (e : Ev) (h : InvNum s ∧ InvQ s) (he : NoPruneInactive e) :
     InvNum (step s env e) ∧ InvQ (step s env e) :=
-  stepQ h env e he
+  stepQ' h env e he
 
 /-- `abort_all`: when a connect failure exhausts the retries (or is 3D000, "database does not
     exist"), `_connect` empties the queue of the block and every sleeping waiter of the block
@@ -127,7 +128,8 @@ theorem C16_counterexample_tick_shrink :
 
 /-! ### Non-vacuity -/
 
-example : InvQ (run (init 1) gcRace) := (waiters_consistent 1 gcRace (Prims.noPrune_all (by decide))).2
+example : InvQ (run (init 1) gcRace) :=
+  (waiters_consistent 1 gcRace (fun x hx => (Prims.noPrune_all (by decide) x hx).1)).2
 
 /-- a state in which `Inv₂` is not vacuous: a sleeping waiter, an idle connection, a woken waiter -/
 def exEvs : List (Env × Ev) :=
@@ -135,6 +137,6 @@ def exEvs : List (Env × Ev) :=
 
 example : (run (init 1) exEvs).blocks.any (fun b => !b.queue.isEmpty && !b.stack.isEmpty) = true ∧
     InvQ (run (init 1) exEvs) :=
-  ⟨by decide, (waiters_consistent 1 _ (Prims.noPrune_all (by decide))).2⟩
+  ⟨by decide, (waiters_consistent 1 _ (fun x hx => (Prims.noPrune_all (by decide) x hx).1)).2⟩
 
 end EdbVerif.C16
